@@ -31,7 +31,16 @@ PY_ERR = [
     ("You can pass either the semimajor axis or orbital period, but not both", 11),
     ("Passed (ix, iy) coordinates are not valid", 12), ("Can't pass both omega and pomega", 13),
     ("Can only pass one longitude/anomaly", 14), ("Semi-major axis (or orbital period) cannot be zero", 15),
-    ("NaN passed as an argument", 16)]
+    ("NaN passed as an argument", 16), ("NaN or infinite value passed as an argument", 16)]
+
+
+def nonfinite_rejected():
+    """does the C front end of the tree under test reject +-inf like NaN (the macro tests !isfinite)?"""
+    src = open(os.path.join(vlib.REPO, "src", "tools.c")).read()
+    return "if (!isfinite(var)) nan_given = 1" in src
+
+
+NONFINITE_REJECTED = nonfinite_rejected()
 
 
 def c_err_table():
@@ -135,6 +144,10 @@ def gen_case(rng, names, allow_nan=True):
         cand = [n for n in names if n in DARGS]
         if cand:
             vals[rng.choice(cand)] = float("nan")
+    elif allow_nan and rng.random() < 0.02:
+        cand = [n for n in names if n in DARGS]
+        if cand:
+            vals[rng.choice(cand)] = rng.choice([float("inf"), float("-inf")])
     return case
 
 
@@ -349,7 +362,8 @@ def coq_args(c):
     def st(n):
         if n not in c["names"]:
             return "Absent"
-        return "GivenNaN" if v[n] != v[n] else "Given"
+        x = v[n]
+        return "GivenNaN" if (x != x or (NONFINITE_REJECTED and isinstance(x, float) and abs(x) == float("inf"))) else "Given"
     b = lambda x: "true" if x else "false"
     # value bit a_azero: the semi-major axis the front end would use (passed, or computed from P) compares equal to 0
     m = v["m"] if "m" in c["names"] else 0.0
@@ -423,6 +437,18 @@ class Rec:
 def gen_numeric_cases(L, rng, n_fo, n_kep):
     cases = []     # (kind, coq_term, expected_list, descr)
     H = vlib.fhex
+    na, nb, tn = math.nextafter(1.0, 0.0), math.nextafter(1.0, 2.0), 1e-308
+    corners = []
+    for pmass in (tn, math.nextafter(tn, 0.0), math.nextafter(tn, 1.0), 5e-324, -1.0, 1e308):
+        corners.append(dict(pm=pmass))
+    for a in (-0.0, 0.0, 5e-324, -5e-324, 1e308, -1e308, 1e-160, 1e160):
+        corners.append(dict(a=a, e=2.0 if a < 0 else 0.3))
+    for e in (-0.0, 5e-324, na, nb, 1.0, -5e-324):
+        corners.append(dict(e=e, a=-1.0 if e > 1 else 1.0))
+    for inc, f in ((-0.0, -0.0), (math.pi, math.pi), (math.pi, -math.pi), (0.0, math.pi), (math.pi / 2, 0.0), (float("inf"), 0.0), (0.3, float("inf"))):
+        corners.append(dict(inc=inc, f=f))
+    for G, m in ((0.0, 1e-3), (-1.0, 1e-3), (1.0, -2.0), (1.0, float("inf")), (1e308, 1e-3), (5e-324, 0.0)):
+        corners.append(dict(G=G, m=m))
     for i in range(n_fo):
         hyper = rng.random() < 0.35
         a = (-1 if hyper else 1) * 10 ** rng.uniform(-3, 4)
@@ -437,6 +463,11 @@ def gen_numeric_cases(L, rng, n_fo, n_kep):
         elif u < 0.10: e = -rng.uniform(0, 1)
         elif u < 0.15: a = -a
         elif u < 0.17: a = 0.0
+        if i < len(corners):          # the edges of the domain (deterministic)
+            cn = corners[i]
+            G = cn.get("G", 1.0); m = cn.get("m", 1e-3); a = cn.get("a", 1.5); e = cn.get("e", 0.3 if a > 0 else 2.0)
+            inc = cn.get("inc", 0.4); f = cn.get("f", 0.7); Om, om = 1.1, 2.2
+            pr = [cn.get("pm", 1.0), 0.1, -0.2, 0.3, 0.01, 0.02, -0.03]
         err = ctypes.c_int(0)
         p = L.clib.reb_particle_from_orbit_err(G, L.mk_prim(pr), m, a, e, inc, Om, om, f, ctypes.byref(err))
         tr = [L.libm.cos(Om), L.libm.sin(Om), L.libm.cos(om), L.libm.sin(om), L.libm.cos(f), L.libm.sin(f),
@@ -647,7 +678,7 @@ def run(ctx):
     n_nan = n_pp = n_x = n_cls = 0
     found = {}
     for i, c in enumerate(cases):
-        hasnan = any(isinstance(x, float) and x != x for x in c["vals"].values())
+        hasnan = any(isinstance(x, float) and (x != x or abs(x) == float("inf")) for x in c["vals"].values())
         converted = ("P" in c["names"] or "T" in c["names"])
         ok = close_outcome(c_out[i], py_out[i]) if converted else same_outcome(c_out[i], py_out[i])
         if py_out[i][0] == "X" and c_out[i][0] == "E":
